@@ -554,6 +554,9 @@ func (r *Run) onRw(ev string) {
 				for _, tag := range a.pres {
 					r.ledger.expPre[tag]++
 				}
+				if a.tr.plan.PreReg != "" && a.tr.plan.Ctx != "nil" {
+					r.ledger.expCommit["prereg:"+a.tr.id]++
+				}
 				if a.tr.plan.PreReg != "" && a.tr.plan.Ctx != "nil" && a.preRegRan != 1 {
 					r.viols = append(r.viols, Violation{Props: []string{"C07"}, Oracle: "tx", Sig: "pre-commit-action-count",
 						Detail: fmt.Sprintf("%s committed, but the pre-commit action registered on its context before the call ran %d time(s) during the committed execution", a.tr.id, a.preRegRan)})
@@ -948,6 +951,15 @@ func (r *Run) execWriteTx(t *Task, idx int, tx *TxPlan) {
 		if tx.PreReg == "fail" {
 			r.bump(&r.res.FaultsConf, "F4")
 		}
+		// ... and a commit action, also before the call: it belongs to the one transaction the call commits
+		preTag := "prereg:" + tr.id
+		callCtx.AddCommitAction(func() {
+			defer r.s.AsyncDone()
+			r.s.AsyncEnter("async:commit:" + preTag)
+			r.ledger.mu.Lock()
+			r.ledger.CommitActs[preTag]++
+			r.ledger.mu.Unlock()
+		})
 	}
 	body := func(ctx boltz.MutateContext) error {
 		err := r.body(tr, ctx)
@@ -1008,6 +1020,9 @@ func (r *Run) execWriteTx(t *Task, idx int, tx *TxPlan) {
 			err = boltz.NewMigratorManager(r.db).Migrate("dsim", target, func(step *boltz.MigrationStep) int {
 				if e := body(step.Ctx); e != nil {
 					step.SetError(e)
+					if len(tx.Ops)%2 == 0 {
+						return step.CurrentVersion // the other usual style: a failed step reports no progress
+					}
 				}
 				return target
 			})
